@@ -3,6 +3,7 @@
 Proof: coq/Properties/C19.v about Model/Client.v (APIClient bookkeeping over a sequence of Model/Conn.v connections).
 Tie: trace validation of the composite model against the real APIClient over several consecutive sessions, and the
 property predicate evaluated on the implementation after every callback, at every quiescent point and by a final probe."""
+import asyncio
 import json
 import random
 
@@ -141,6 +142,7 @@ def split_cl(proj):
 
 def predicate(tr, story):
     v = []
+    rejected = login_now = False
     steps = [(l, *split_cl(p), list(o)) for l, p, o in tr.steps]
     for i, (label, p, cl, obs) in enumerate(steps):
         pj, clj = (steps[i - 1][1], steps[i - 1][2]) if i else (connfamily.parse_proj(clienttrace.INIT_PROJ), 0)
@@ -149,6 +151,18 @@ def predicate(tr, story):
                 v.append(("C19/request-not-refused", f"request issued in state {pj['cs']} (client has connection: {clj}) was not refused", i))
             if any(o.startswith("W") for o in obs):
                 v.append(("C19/request-wrote", "request issued with no live session wrote to the device", i))
+        if label == "cstart" and "XALREADY" not in obs:
+            rejected = False
+            login_now = False
+        if label.startswith("cfinish:") and "XRT" not in obs:
+            login_now = label.endswith(":1")
+        if label.startswith("data:"):
+            for it in label[5:].split(";"):
+                f = it.split(".")
+                if f[0] == "f" and f[1] == "4" and f[2] == "1" and f[6] == "1" and login_now:
+                    rejected = True       # the device answered the login with invalid_password: this attempt never yields an authenticated session
+        if label == "ccmd" and rejected and (any(o.startswith("W") for o in obs) or not any(o.startswith("X") for o in obs)):
+            v.append(("C19/command-after-rejected-login", "the device rejected the login of this attempt (invalid password), yet a later command was accepted and written", i))
         if label == "ccmd":
             alive = clj == 1 and pj["cs"] == "CONN"
             wrote = [o for o in obs if o.startswith("W")]
@@ -185,6 +199,55 @@ def predicate(tr, story):
     if not fp["alive"] and (fp["cmd"] != "refused" or fp["wrote"]):
         v.append(("C19/final-command", f"command with no live session: {fp['cmd']}, wrote {fp['wrote']} frame(s)", len(steps) - 1))
     return v
+
+
+def restart_from_hook_probe(ending):
+    """The application's stop callback asks for a new connection at once (before it first suspends): the session has ended, so the
+    attempt must be accepted. Returns 'accepted' | 'already' | 'not-called' | other text."""
+    async def go(loop):
+        from aioesphomeapi import api_pb2 as pb
+        from aioesphomeapi.client import APIClient
+        from aioesphomeapi.core import APIConnectionError
+        net = simnet.Net(loop)
+        out = {"r": "not-called"}
+        with net.patched():
+            cli = APIClient("10.0.0.1", 6053, None)
+
+            async def on_stop(expected):
+                coro = cli.start_connection(on_stop=on_stop)
+                net.resolve_script = ["hang"]
+                try:
+                    coro.send(None)            # up to its first suspension
+                    out["r"] = "accepted"
+                except StopIteration:
+                    out["r"] = "accepted"
+                except APIConnectionError as e:
+                    out["r"] = "already" if str(e).startswith("Already connected") else "error:" + str(e)[:60]
+                except Exception as e:  # noqa
+                    out["r"] = "raw:" + type(e).__name__
+                finally:
+                    coro.close()
+            await cli.start_connection(on_stop=on_stop)
+            task = asyncio.ensure_future(cli.finish_connection(login=False))
+            await simnet.drain(loop)
+            tr = net.transports[-1]
+            tr.feed(simnet.plain_msg(pb.HelloResponse(api_version_major=1, api_version_minor=10, name="dev")))
+            await simnet.drain(loop)
+            await task
+            if ending == "request":
+                tr.feed(simnet.plain_msg(pb.DisconnectRequest()))
+            elif ending == "eof":
+                tr.feed_eof()
+            elif ending == "reset":
+                tr.lose(ConnectionResetError("reset"))
+            elif ending == "bad-frame":
+                tr.feed(b"\x01\x00\x00")
+            await simnet.drain(loop)
+            for t in asyncio.all_tasks(loop):
+                if t is not asyncio.current_task():
+                    t.cancel()
+        return out["r"]
+    return simnet.run(go)
 
 
 def run(rep, tier, seed):
@@ -230,6 +293,13 @@ def run(rep, tier, seed):
         dis = connstories.compare(steps, mo)
         if dis or problems:
             disagreements.append({"story": connfamily.story_text(st), "disagreement": dis, "problems": [list(map(str, p)) for p in problems[:2]]})
+    for ending in ("request", "eof", "reset", "bad-frame"):
+        r = restart_from_hook_probe(ending)
+        rep.case(("restart-from-hook", ending), True, sample={"probe": "restart-from-hook", "ending": ending, "answer": r})
+        rep.bump("probe:restart-from-hook")
+        if r != "accepted":
+            rep.violation("C19/refused-in-stop-callback", f"the session was ended by {ending}; start_connection() called from the stop callback (before it first suspends) "
+                          f"answered {r!r} although no session is alive and no attempt is in progress", {"kind": "restart-from-hook", "ending": ending})
     rep.coverage["disagreements"] = len(disagreements)
     if disagreements and not rep.violations:
         rep.violations.append(("C19/correspondence", "Model/Client.v and the real APIClient disagree on a trace; no violation of C19 found among the explored stories",
@@ -243,6 +313,9 @@ def replay(path):
     common.setup_impl_path()
     connfamily.N_REG = connfamily.n_registered()
     d = json.loads(open(path).read())["replay"]
+    if d.get("kind") == "restart-from-hook":
+        print(restart_from_hook_probe(d["ending"]))
+        return 0
     if "story" not in d:
         print("nothing to replay:", d.get("kind"))
         return 0
